@@ -10,7 +10,7 @@ from hypothesis import strategies as st
 
 ID = 'C16'
 RULE = ('(a) exhaustive: every table of 1..3 (quick) / 1..4 (thorough) rows over the 8 possible rows, in presentation '
-        'variants (geo column/index, int/str IDs, int/float/bool cells, extra column), each accepted table queried with '
+        'variants (geo column/index, int/str IDs, int/float/bool cells, extra column, value columns in any order), each accepted table queried with '
         'every non-empty ordered subset of its geos x indices in {False, True} and with None; every single malformed '
         'mutation (column dropped, geo absent, duplicate ID incl. 1 vs "1", cell in {2,-1,0.5,NaN,None,"1"}, duplicated '
         'value column) of a legal table; (b) Hypothesis: tables up to 10 rows with drawn subsets and mutations. '
@@ -56,7 +56,8 @@ def enumerate_cases(tier):
       variants = VARIANTS if n <= 3 else [VARIANTS[k % len(VARIANTS)]]
       k += 1
       for (g, d, c) in variants:
-        yield {'rows': rows, 'geo_as': g, 'id_dtype': d, 'cell': c, 'extra_col': (k % 3 == 0), 'mut': None, 'subsets': 'all'}
+        yield {'rows': rows, 'geo_as': g, 'id_dtype': d, 'cell': c, 'extra_col': (k % 3 == 0), 'mut': None, 'subsets': 'all',
+               'col_order': [None, ['treatment', 'control', 'exclude'], ['exclude', 'treatment', 'control'], ['control', 'exclude', 'treatment']][k % 4]}
   # single mutations of legal tables
   for n in range(1, max_rows):
     for combo in itertools.product(range(1, 8), repeat=n):
@@ -90,7 +91,8 @@ def _spec(draw):
     subsets.append(list(sub[:m]))
   return {'rows': rows, 'geo_as': draw(st.sampled_from(['column', 'index'])),
           'id_dtype': 'str' if id_dtype == 'name' else id_dtype, 'cell': cell,
-          'extra_col': draw(st.booleans()), 'mut': mut, 'subsets': subsets}
+          'extra_col': draw(st.booleans()), 'mut': mut, 'subsets': subsets,
+          'col_order': list(draw(st.permutations(['control', 'treatment', 'exclude']))) if draw(st.booleans()) else None}
 
 
 def strategy(tier):
@@ -127,6 +129,12 @@ def build_frame(spec):
                      for k, v in cols.items()})
   if spec.get('extra_col'):
     df['note'] = 'n'
+  if spec.get('col_order'):
+    # value columns in another order (columns are labelled: their position must not matter)
+    cols_now = [c for c in df.columns]
+    order = [c for c in spec['col_order'] if c in cols_now]
+    rest = [c for c in cols_now if c not in order]
+    df = df[rest[:1] + order + rest[1:]] if len(set(cols_now)) == len(cols_now) else df
   if mut and mut['kind'] == 'dupcol':
     df = pd.concat([df, df[[mut['col']]]], axis=1)
   if mut and mut['kind'] == 'dropcol' and mut['col'] != 'geo':
